@@ -160,6 +160,7 @@ class Check:
         self.stats = {}
         self.rng = random.Random(self.seed)
         self.keep_work = bool(os.environ.get("VERIF_KEEP"))
+        self.vclasses = {}
 
     # -- paths
     def spec(self, name):
@@ -309,6 +310,19 @@ class Check:
                     break
                 if not r.violated:
                     raise MachineryError("TLC failed on %s (rc=%d):\n%s" % (cur, r.rc, r.out[-4000:]))
+                if r.violated == "Collected":
+                    # collect mode: the trace spec recorded every failing case itself (variable fails)
+                    st = r.last_state()
+                    m = re.search(r"/\\ fails = (.*?)(?=\n/\\ |\Z)", st, re.S)
+                    entries = re.findall(r"\[\s*line \|-> (\d+),\s*inv \|-> \"(\w+)\"\s*\]|\[\s*inv \|-> \"(\w+)\",\s*line \|-> (\d+)\s*\]", m.group(1) if m else "")
+                    for a, b, c2, d in entries:
+                        ln, inv = (int(a), b) if a else (int(d), c2)
+                        case_lines, start, end, case_no = self._case_at(cur, ln)
+                        viols.append({"inv": inv, "file": fn, "label": label, "case": case_no, "line_in_case": ln - start,
+                                      "trace": case_lines, "tlc": "(collect mode) " + inv + " at line %d" % ln, "state": ""})
+                    if not entries:
+                        raise MachineryError("collect mode: cannot parse fails from TLC output:\n" + r.out[-3000:])
+                    break
                 line = self._violation_line(r)
                 if line is None:
                     raise MachineryError("cannot locate violating line in TLC output:\n" + r.out[-4000:])
@@ -429,6 +443,8 @@ class Check:
 
     # -- driver liveness
     def require_events(self, kinds):
+        if os.environ.get("VERIF_ONLY"):
+            return
         missing = [k for k in kinds if self.stats.get(k, 0) == 0]
         if missing:
             self.fail_machinery("dead driver: event kinds never observed: %s (stats %s)" % (missing, self.stats))
@@ -442,6 +458,7 @@ class Check:
             if cases is not None and 0 <= v["case"] < len(cases):
                 v["stimulus"] = cases[v["case"]]
             v["what"] = describe(v) if describe else v["inv"]
+            self.vclasses[(v["inv"], json.dumps(v.get("sig", {}), sort_keys=True))] = self.vclasses.get((v["inv"], json.dumps(v.get("sig", {}), sort_keys=True)), 0) + 1
             hit = match_known(kf, self.pid, v)
             if hit:
                 self.known.append((hit, v))
@@ -450,6 +467,8 @@ class Check:
 
     def finish(self, rule="", extra_cov=None):
         wall = time.time() - self.t0
+        for (inv, sg), n in sorted(self.vclasses.items()):
+            log("[%s] violation class: %s %s x%d" % (self.pid, inv, sg, n))
         # replay dirs for violations
         outlines = []
         seen_known = set()
@@ -551,6 +570,15 @@ def pkg_overlay(pkg_rel, harness_sub):
     for f in sorted(glob.glob(os.path.join(HARNESS, harness_sub, "*.go"))):
         m[os.path.normpath(os.path.join(pkg_rel, "zz_verif_" + os.path.basename(f)))] = os.path.join(harness_sub, os.path.basename(f))
     return m
+
+
+def filter_cases(cases):
+    """debug aid: VERIF_ONLY='client=plain,server=v2only' keeps the cases whose cfg matches"""
+    only = os.environ.get("VERIF_ONLY")
+    if not only:
+        return cases
+    want = dict(kv.split("=") for kv in only.split(","))
+    return [c for c in cases if all(str(c["cfg"].get(k)) == v for k, v in want.items())]
 
 
 def sample_cases(cases, rng, n=3):
